@@ -1,17 +1,17 @@
 #!/bin/bash
-# tools/try_seed_wt.sh <seed-id> <check-id> [tier]  - like try_seed.sh but on a scratch worktree of /repo
-# (VERIF_REPO), so /repo itself is never touched (safe while background runs use /repo).
+# tools/try_seed_wt.sh <seed-id> <check-id> [tier]  - run a check against a seeded change applied to a
+# scratch worktree of /repo (VERIF_REPO), so /repo itself is never touched; evidence and replays of the
+# patched run go to a scratch directory (VERIF_OUT), not to /verif/evidence.  CHECK_SEED=<n> picks the seed.
 HERE="$(cd "$(dirname "$0")/.." && pwd)"
 S=$1; C=$2; T=${3:-quick}
 WT=/tmp/geckolib-seedtry-$$
+OUT=/tmp/geckolib-seedout-$$
 git -C /repo worktree add --detach $WT HEAD >/dev/null 2>&1 || { echo "worktree failed"; exit 2; }
 if ! git -C $WT apply "$HERE/seeded/$S/patch.diff" 2>/dev/null; then
   echo "patch does not apply to the current tree (needs rebasing): $S"; git -C /repo worktree remove --force $WT; exit 2
 fi
 mkdir -p "$HERE/.cache"
-cp "$HERE/evidence/$C.json" "$HERE/.cache/ev.$C.bak.$$" 2>/dev/null
-VERIF_REPO=$WT "$HERE/check" $C --tier $T > "$HERE/.cache/try.$S.$C.out" 2>&1; RC=$?
-cp "$HERE/.cache/ev.$C.bak.$$" "$HERE/evidence/$C.json" 2>/dev/null; rm -f "$HERE/.cache/ev.$C.bak.$$"
-git -C /repo worktree remove --force $WT; git -C /repo worktree prune
+VERIF_REPO=$WT VERIF_OUT=$OUT "$HERE/check" $C --tier $T --seed ${CHECK_SEED:-0} > "$HERE/.cache/try.$S.$C.out" 2>&1; RC=$?
+git -C /repo worktree remove --force $WT; git -C /repo worktree prune; rm -rf $OUT
 grep -E "VIOLATION|INCONCLUSIVE|violated:" "$HERE/.cache/try.$S.$C.out" | head -${LINES_SHOWN:-4}
 echo "seed=$S check=$C exit=$RC"
